@@ -309,8 +309,10 @@ def run(tier, seed, only_cases=None):
     workers = 4 if tier == "quick" else 16
 
     # ---- (1) model checking -------------------------------------------------------------------
-    cfgs = [("MCLogSafety_q.cfg", 300), ("MCLogSafety_n3obj.cfg", 600), ("MCLogSafety_mapsq.cfg", 300)] if tier == "quick" else \
-        [("MCLogSafety_q.cfg", 300), ("MCLogSafety_n3obj.cfg", 600), ("MCLogSafety_free.cfg", 900),
+    # n3oe: three types, objects and enums (a superset of the object-only n3obj tables: an enum is the one kind that is
+    # safe without being evaluated further, which matters for what is cached when)
+    cfgs = [("MCLogSafety_q.cfg", 300), ("MCLogSafety_n3oe.cfg", 600), ("MCLogSafety_mapsq.cfg", 300)] if tier == "quick" else \
+        [("MCLogSafety_q.cfg", 300), ("MCLogSafety_n3oe.cfg", 600), ("MCLogSafety_free.cfg", 900),
          ("MCLogSafety_maps.cfg", 1800), ("MCLogSafety_n3.cfg", 3000)]
     if tier == "quick":
         cfgs.append(("MCLogSafety_freeq.cfg", 300))
@@ -340,7 +342,16 @@ def run(tier, seed, only_cases=None):
                    keep_cases=False)
     if not r_old.violated:
         raise vc.ToolError("spec self-test failed: the unrepaired mechanism passes the invariants")
-    vc.log("[tlc] %d states, %d cases, old-mechanism self-test violated %s" % (states, len(cases), r_old.violated))
+    # every N=3 table (objects, enums) on which the unrepaired mechanism and the reference disagree: the order-sensitive tables,
+    # where a caching slip of any kind is most likely to show - all of them are replayed
+    r_sens = vc.tlc(PID, "MCLogSafety", "MCLogSafety_n3oe_old.cfg", workers=workers, timeout_s=600, coverage=False)
+    if r_sens.error:
+        raise vc.ToolError("MCLogSafety_n3oe_old.cfg: %s" % r_sens.error)
+    sensitive = r_sens.cases
+    for c in sensitive:
+        c["old"] = True         # `mech` is the unrepaired mechanism's prediction here: not a prediction for this tree
+    mc_runs.append({"cfg": "MCLogSafety_n3oe_old.cfg", "generated": r_sens.generated, "distinct": r_sens.distinct, "cases": len(sensitive)})
+    vc.log("[tlc] %d states, %d cases, %d order-sensitive tables, old-mechanism self-test violated %s" % (states, len(cases), len(sensitive), r_old.violated))
 
     # ---- (2) S->I replay ------------------------------------------------------------------------
     budget = 9000 if tier == "quick" else 40000
@@ -348,7 +359,7 @@ def run(tier, seed, only_cases=None):
     rest = [c for c in cases if c["mech"] == c["ref"] * 2]
     cyc = [c for c in rest if has_cycle(c["tab"])]
     plain = [c for c in rest if not has_cycle(c["tab"])]
-    chosen = interesting[:2000] + rng.sample(cyc, min(len(cyc), budget * 3 // 4))
+    chosen = sensitive + interesting[:2000] + rng.sample(cyc, min(len(cyc), budget * 3 // 4))
     chosen += rng.sample(plain, min(len(plain), max(0, budget - len(chosen))))
     docs = []
     meta = {}
@@ -383,7 +394,7 @@ def run(tier, seed, only_cases=None):
                     out.violation(sig, "argument a%d (%s trait) generated %s but reference semantics says %s" % (
                         j + 1, style, "safe" if got else "not safe", "safe" if c["ref"][j] else "not safe"),
                         {"case": c, "layout": layout, "seed": rs, "observed": flags})
-                elif layout == 0 and got != c["mech"][off + j]:
+                elif layout == 0 and not c.get("old") and got != c["mech"][off + j]:
                     out.model_drift("LogSafety", "case %s a%d %s: model predicted %s" % (obs["id"], j + 1, style,
                                                                                        c["mech"][off + j]))
         if has_cycle(c["tab"]) or any(c["ref"]):
